@@ -313,7 +313,8 @@ impl ProbeCore {
                     .take_while(|e| matches!(e, Entry::S(_)))
                     .count()
                     .saturating_sub(self.produced);
-                (k + 2, Some(k))
+                // neither bound is the number of elements left
+                (k + 2, Some(k.saturating_sub(1)))
             }
             Hint::PanicEnd => {
                 let all = self
